@@ -29,11 +29,20 @@ type simCfg struct {
 
 type devSim struct {
 	cfg    simCfg
-	in     *bufio.Reader
+	dir    string
+	lines  chan string
 	out    *bufio.Writer
 	tr     *os.File
 	nRead  int
 	silent bool
+}
+
+// finish records the end of the session (the harness waits for this mark) and exits.
+func (d *devSim) finish() {
+	d.out.Flush()
+	fmt.Fprintf(d.tr, "X %d\n", d.nRead)
+	d.tr.Close()
+	os.Exit(0)
 }
 
 func (d *devSim) emit(s string) {
@@ -45,16 +54,32 @@ func (d *devSim) emit(s string) {
 	d.out.Flush()
 }
 
-// readLine reads one line, records it, and returns (line, ok).
+// readLine returns the next line the client wrote, records it, and returns (line, ok).
+// When the harness says that the program under test is done (file "stop") and nothing more
+// arrives, the session is over.
 func (d *devSim) readLine() (string, bool) {
-	line, err := d.in.ReadString('\n')
-	if err != nil && line == "" {
-		return "", false
+	tick := time.NewTicker(5 * time.Millisecond)
+	defer tick.Stop()
+	idle := 0
+	for {
+		select {
+		case line, ok := <-d.lines:
+			if !ok {
+				return "", false
+			}
+			line = strings.TrimRight(line, "\r\n")
+			d.nRead++
+			fmt.Fprintf(d.tr, "L %d %s\n", d.nRead, strings.ReplaceAll(line, "\t", " "))
+			return line, true
+		case <-tick.C:
+			if _, err := os.Stat(filepath.Join(d.dir, "stop")); err == nil {
+				idle++
+				if idle >= 8 {
+					d.finish()
+				}
+			}
+		}
 	}
-	line = strings.TrimRight(line, "\r\n")
-	d.nRead++
-	fmt.Fprintf(d.tr, "L %d %s\n", d.nRead, strings.ReplaceAll(line, "\t", " "))
-	return line, true
 }
 
 func (d *devSim) mark(what string) {
@@ -101,9 +126,7 @@ func (d *devSim) fault(echoLine, normal string, promptAfter string) bool {
 		}
 		d.silent = true
 	case "close":
-		d.out.Flush()
-		d.tr.Close()
-		os.Exit(0)
+		d.finish()
 	default:
 		return false
 	}
@@ -137,13 +160,26 @@ func runDevSim(dir string) {
 		fmt.Fprintln(os.Stderr, err)
 		os.Exit(3)
 	}
-	d := &devSim{in: bufio.NewReader(os.Stdin), out: bufio.NewWriter(os.Stdout)}
+	d := &devSim{dir: dir, lines: make(chan string, 64), out: bufio.NewWriter(os.Stdout)}
+	go func() {
+		in := bufio.NewReader(os.Stdin)
+		for {
+			line, err := in.ReadString('\n')
+			if line != "" {
+				d.lines <- line
+			}
+			if err != nil {
+				close(d.lines)
+				return
+			}
+		}
+	}()
 	if err := json.Unmarshal(data, &d.cfg); err != nil {
 		fmt.Fprintln(os.Stderr, err)
 		os.Exit(3)
 	}
 	d.tr, _ = os.OpenFile(filepath.Join(dir, "transcript"), os.O_APPEND|os.O_CREATE|os.O_WRONLY, 0644)
-	defer d.tr.Close()
+	defer d.finish()
 	// The code under test never closes the pty of a session it aborts; do not linger.
 	go func() {
 		time.Sleep(20 * time.Second)
